@@ -22,6 +22,10 @@ pub enum Pre {
 #[derive(Clone, Debug, Serialize, Deserialize, PartialEq)]
 pub enum Fault {
 	SendError,
+	/// the send that fails is the unsubscribe request written when a subscription stream is dropped
+	SendErrorOnUnsubscribe,
+	/// valid JSON that is no JSON-RPC message, long, with multi-byte characters around the 512th byte
+	LongJunk(u8, u8),
 	ReceiveError,
 	PeerGone,
 	NotJson(u8),
@@ -51,7 +55,16 @@ pub const NOT_RPC: [&str; 8] = ["{}", "7", "null", "\"x\"", "{\"jsonrpc\":\"2.0\
 pub fn fault_message(f: &Fault, string_ids: bool) -> Option<Vec<u8>> {
 	let id = |n: u64| if string_ids { json!(n.to_string()) } else { json!(n) };
 	Some(match f {
-		Fault::SendError | Fault::ReceiveError | Fault::PeerGone => return None,
+		Fault::SendError | Fault::SendErrorOnUnsubscribe | Fault::ReceiveError | Fault::PeerGone => return None,
+		Fault::LongJunk(pad, kind) => {
+			let unit = ["€", "é", "😀", "中"][*kind as usize % 4];
+			let body = format!("{}{}", "a".repeat(*pad as usize % 8), unit.repeat(300));
+			match kind / 4 % 3 {
+				0 => json!({"x": body}).to_string().into_bytes(),
+				1 => json!([body]).to_string().into_bytes(),
+				_ => json!({"jsonrpc":"2.0","method":7,"params":body}).to_string().into_bytes(),
+			}
+		}
 		Fault::NotJson(i) => NOT_JSON[*i as usize % NOT_JSON.len()].to_vec(),
 		Fault::NotRpc(i) => NOT_RPC[*i as usize % NOT_RPC.len()].as_bytes().to_vec(),
 		Fault::ResponseToNobody(i) => {
@@ -202,6 +215,17 @@ pub async fn run_fault_case(case: &C09Case, obs: &mut Obs) {
 			let plan = if case.send_stalls { SendPlan::GateThenFail("send".into(), "injected-send-failure".into()) } else { SendPlan::Fail("injected-send-failure".into(), 1) };
 			w.mc.shared.send_plans.lock().push_back(plan);
 			w.spawn_call(); // the operation whose send fails
+		}
+		Fault::SendErrorOnUnsubscribe => {
+			marker = Some("injected-send-failure".into());
+			w.mc.shared.send_plans.lock().push_back(SendPlan::Fail("injected-send-failure".into(), 1));
+			let stream = w.subs.lock().pop();
+			match stream {
+				// dropping the stream makes the background task write the unsubscribe request
+				Some(s) => drop(s),
+				// no accepted subscription in this history: an ordinary call triggers the send
+				None => w.spawn_call(),
+			}
 		}
 		Fault::ReceiveError => {
 			marker = Some("injected-receive-failure".into());
@@ -415,6 +439,8 @@ impl SubCheck for Faults {
 		];
 		let fault = prop_oneof![
 			3 => Just(Fault::SendError),
+			2 => Just(Fault::SendErrorOnUnsubscribe),
+			2 => (0u8..8, 0u8..12).prop_map(|(p, k)| Fault::LongJunk(p, k)),
 			2 => Just(Fault::ReceiveError),
 			2 => Just(Fault::PeerGone),
 			2 => (0u8..8).prop_map(Fault::NotJson),
@@ -452,7 +478,12 @@ pub fn enumerated_cases(tier: Tier) -> Vec<C09Case> {
 		Pre::Batch { n: 3, answered: true },
 		Pre::Notify,
 	];
-	let mut faults = vec![Fault::SendError, Fault::ReceiveError, Fault::PeerGone, Fault::EmptyArray];
+	let mut faults = vec![Fault::SendError, Fault::SendErrorOnUnsubscribe, Fault::ReceiveError, Fault::PeerGone, Fault::EmptyArray];
+	for pad in 0..4 {
+		for kind in [0u8, 2, 5, 11] {
+			faults.push(Fault::LongJunk(pad, kind));
+		}
+	}
 	for i in 0..8 {
 		faults.push(Fault::NotJson(i));
 		faults.push(Fault::NotRpc(i));
@@ -525,7 +556,7 @@ pub fn corpus_replay(ctx: &mut Ctx) {
 
 pub fn check(ctx: &mut Ctx) {
 	ctx.rule = "fault enumeration: each fault kind {send error, receive error, peer gone, 8 non-JSON texts, 8 JSON-but-not-JSON-RPC texts, responses to nobody (ids incl. null, 2^63, 2^64-1), empty array, junk arrays, one-element arrays with ids 0/2^63/2^64-1/2^64-2/\"abc\", a 10^5-element array} \
-		injected at EVERY position of a fixed 8-operation client history (calls/subscribes/batches answered or pending) x {close() stalls or not} x {send stalls before failing or not} x id kind, with operations issued inside the gate window and after it; plus generated histories/faults incl. arbitrary and mutated bytes. \
+		a failing unsubscribe write (dropped stream), long non-ASCII junk} injected at EVERY position of a fixed 8-operation client history (calls/subscribes/batches answered or pending) x {close() stalls or not} x {send stalls before failing or not} x id kind, with operations issued inside the gate window and after it; plus generated histories/faults incl. arbitrary and mutated bytes. \
 		Oracle: no task panics; nothing completing inside the window carries the 'reason could not be found' placeholder; after release every outstanding and later operation is complete with RestartNeeded(cause) naming the injected cause, all callers and on_disconnect() see the same cause, streams ended, is_connected()==false, results obtained before the fault are kept. \
 		Non-trivial = >= 1 operation pending at the fault or issued inside a gate window; distinct by case value."
 		.into();
